@@ -25,6 +25,7 @@ type Match struct {
 	Symptom    string   `json:"symptom,omitempty"`
 	SymptomAny []string `json:"symptom_any,omitempty"`
 	Frame      string   `json:"frame,omitempty"`     // prefix of the first arrai frame
+	FrameAny   []string `json:"frame_any,omitempty"` // any of these prefixes
 	MsgClass   string   `json:"msg_class,omitempty"` // substring
 	StepKind   string   `json:"step_kind,omitempty"`
 	StepAny    []string `json:"step_any,omitempty"`
@@ -111,6 +112,17 @@ func (m *Match) matches(s Signature) bool {
 	}
 	if m.Symptom != "" && m.Symptom != s.Symptom {
 		return false
+	}
+	if len(m.FrameAny) > 0 {
+		ok := false
+		for _, f := range m.FrameAny {
+			if strings.HasPrefix(s.Frame, f) {
+				ok = true
+			}
+		}
+		if !ok {
+			return false
+		}
 	}
 	if len(m.SymptomAny) > 0 && !contains(m.SymptomAny, s.Symptom) {
 		return false
